@@ -1,5 +1,5 @@
 """Boilerplate shared by the engine-P checks whose case is self-contained (program text + configs)."""
-import json, time
+import json, time, os
 from . import common
 from .common import Violation, Discard, Inconclusive, Stats
 from .hyp import hyp_run
@@ -46,6 +46,8 @@ class PCheck:
     def main(self, tier, seed):
         t0 = time.time()
         total = self.quick if tier == "quick" else self.thorough
+        if os.environ.get("VERIF_N"):
+            total = int(os.environ["VERIF_N"])
         st = common.run_sharded(self.worker, seed, total, {"tier": tier}, shards=self.shards)
         if self.probes:
             self.probes(st, tier, seed)
